@@ -137,6 +137,7 @@ pub fn gen_c14(seed: u64, thorough: bool) -> Scenario {
     profile: "C14/reorg".into(),
     config,
     ops,
+    server: None,
   }
 }
 
